@@ -31,7 +31,9 @@ import (
 // ---- scenarios ----
 
 type Step struct {
-	K     string   `json:"k"`            // C2S S2C SetH SendH SetT CloseSend RecvEOF CHeader Ret Cancel
+	K     string   `json:"k"`            // C2S S2C SetH SendH SetT CloseSend RecvEOF CHeader Ret Cancel CtxEnd
+	// CtxEnd: as Cancel, but the handler then goes on with the steps that follow (SetH SendH SetT, S2C = a
+	// SendMsg, RecvEOF = a RecvMsg; what these return to the handler is not recorded) up to its Ret
 	M     int      `json:"m,omitempty"`  // message payload (C2S, S2C), response payload (Ret ok of unary shapes)
 	MD    [][2]int `json:"md,omitempty"` // metadata pairs (key index, value)
 	Ok    bool     `json:"ok,omitempty"` // Ret: handler returns nil
@@ -708,6 +710,7 @@ type driver struct {
 	stuck    bool
 	cPending int // client results not yet collected
 	returned bool
+	gone     bool // the client's context has ended (CtxEnd): handler-side results are no longer recorded
 }
 
 func (d *driver) note(f string, a ...any) { d.tr.Notes = append(d.tr.Notes, fmt.Sprintf(f, a...)) }
@@ -742,7 +745,7 @@ func (d *driver) startS(c srvCmd) bool {
 func (d *driver) waitS() (Obs, bool) {
 	select {
 	case o := <-d.ctl.res:
-		if o.K != "sett" {
+		if o.K != "sett" && !d.gone {
 			d.tr.Server = append(d.tr.Server, o)
 		}
 		return o, true
@@ -786,7 +789,7 @@ func runScenario(sc Scenario, srv *scriptSrv, cc grpc.ClientConnInterface) (tr T
 	}
 	usesDeadline := sc.PreDL
 	for _, st := range sc.Steps {
-		usesDeadline = usesDeadline || (st.K == "Cancel" && st.DL)
+		usesDeadline = usesDeadline || ((st.K == "Cancel" || st.K == "CtxEnd") && st.DL)
 	}
 	var ctx context.Context
 	var cancel context.CancelFunc
@@ -890,7 +893,30 @@ func runScenario(sc Scenario, srv *scriptSrv, cc grpc.ClientConnInterface) (tr T
 				d.waitS()
 			}
 			d.waitC()
+		case "CtxEnd":
+			if !pendingRecv {
+				d.startC("recv", 0)
+				pendingRecv = true
+				time.Sleep(200 * time.Microsecond)
+			}
+			cancel()
+			if unary {
+				d.finishClient()
+			} else {
+				d.waitC()
+			}
+			pendingRecv = false
+			if d.startS(srvCmd{k: "waitdone"}) {
+				d.waitS()
+			}
+			d.gone = true
 		case "S2C":
+			if d.gone { // nobody receives any more: the handler's SendMsg returns an error (or not: a real server may not know yet)
+				if d.startS(srvCmd{k: "send", m: st.M}) {
+					d.waitS()
+				}
+				continue
+			}
 			d.startC("recv", 0)
 			pendingRecv = true
 			if d.startS(srvCmd{k: "send", m: st.M}) {
@@ -924,6 +950,13 @@ func runScenario(sc Scenario, srv *scriptSrv, cc grpc.ClientConnInterface) (tr T
 			d.startC("header", 0)
 			d.waitC()
 		case "Ret":
+			if d.gone {
+				if d.startS(srvCmd{k: "ret", step: st}) {
+					d.waitExited()
+					d.returned = true
+				}
+				continue
+			}
 			if !pendingRecv {
 				d.startC("recv", 0)
 				pendingRecv = true
